@@ -51,6 +51,24 @@ CLAIMED = {
   "C16": dict(level="fault_enumeration", design="§5 C16", note=CRASH_NOTE,
      technique="exhaustive torn-write enumeration: every write of every recorded history cut at the enumerated lengths, recovered with the real DB::open, probed and reopened",
      text="For the C02 histories every prefix ending in a write with that write cut at every length (<= 64 B) or at the boundary lengths (larger): open succeeds, contents = acknowledged state (torn operation absent or complete), writes acknowledged after recovery survive the next clean reopen, for both reuse_log_files settings."),
+  "C04": dict(level="model_checking", design="§5 C04",
+     technique="exhaustive enumeration of layouts (operation sequences on the real DB) x exhaustive enumeration of cursor programs against a sorted-map cursor",
+     text="At every state reached by every operation sequence up to the stated depth (T300/T1/M2, optionally with a live snapshot) a fresh iterator of every view runs every cursor program up to the stated length over seek(key or gap key)/seek_to_first/seek_to_last/next/prev; validity, key and value are compared with a cursor over the sorted model after every step; plus full forward/backward scans."),
+  "C08": dict(level="fault_enumeration", design="§5 C08", note=CRASH_NOTE,
+     technique="exhaustive single-fault enumeration: for every position of one failing filesystem call (once / sticky) in the call stream of recorded histories, re-execution on the real DB with a candidate-set oracle",
+     text="For three covering histories and all generated histories up to a depth: the uninjected run numbers the filesystem calls (create, write/append, rename, remove, open, size); for every index and both modes the history is re-executed with that call failing; API results must be Ok/Err (no panic, no hang), reads must be explained by a candidate state (Ok writes applied), and after disarming + reopen the contents must be a candidate."),
+  "C13": dict(level="exploration", design="§5 C13", note=COMP_NOTE,
+     technique="exhaustive enumeration of sorted entry sets x block sizes against the real TableBuilder/Table, vector-model oracle for iteration, seek, get and cursor programs",
+     text="Bounded-exhaustive: every subset of up to 3 (thorough 4) of 8 boundary user keys x 5 version patterns per key x 5 block sizes; forward/backward iteration, every (key, sequence) probe for seek and get (Value/Deleted/NotInFile), and every short cursor program agree with the vector model."),
+  "C14": dict(level="exploration", design="§5 C14", note=COMP_NOTE,
+     technique="exhaustive enumeration of key multisets x bits_per_key 1..64 against the public BloomFilterPolicy, and of table layouts against the table's filter block",
+     text="Bounded-exhaustive: all multisets of size 0..2 (thorough 3) over 40 short byte strings plus generated sets up to 5000 keys, for every bits_per_key 1..=64: every member may-match; for every enumerated table layout every user key of every data block may-match the filter consulted with that block's offset and every stored (key, seq) is found by get."),
+  "C15": dict(level="fault_enumeration", design="§5 C15", note=CRASH_NOTE,
+     technique="exhaustive single-byte corruption enumeration over every offset of every file of small database images, each opened and read completely with the real DB; error-or-correct oracle",
+     text="Five small images (tables on three levels, WAL only, after a multi-output compaction, multi-block WAL record, fresh-manifest snapshot): every offset of every file x {each bit flipped, 0x00 (thorough: 0xff, +1)} and table truncations; open, all gets, forward and backward scan must each be an error or correct (WAL: damaged records may be skipped)."),
+  "C17": dict(level="model_checking", design="§5 C17", note=SCHED_NOTE,
+     technique="exhaustive preemption/deviation-bounded schedule DFS of open/close/destroy programs on the real TmpFileSystem (flock), every filesystem call a switch point",
+     text="All schedules within the bound of 11 programs of 2-3 threads (open+hold, open+put+close, destroy_database) from initial states absent/closed/open: never two live handles; while open elsewhere every open and destroy fails and the owner is undisturbed; exactly one of racing holders succeeds."),
 }
 
 NOT_APPLICABLE = {
